@@ -259,6 +259,13 @@ def check_capture_sizes_http(ctx):
     ctx.rng = vlib.random.Random(ctx.seed * 7 + 20)
     try:
         cases = [c for c, m in C03.gen_cases(ctx) if m["kind"] in ("random", "minimal-request", "witness-chunked-request")][: (120 if ctx.tier == "quick" else 1500)]
+        # interim responses (100 Continue, 102, 103 Early Hints) in front of the final one: whatever the pairing does with
+        # them (recorded finding of C03), their bytes belong to some message of the half
+        for i in range(12 if ctx.tier == "quick" else 150):
+            ex = [H.gen_exchange(ctx.rng, j + 1, last=False, sizes=[0, 3, 100]) for j in range(ctx.rng.choice([1, 2, 3]))]
+            for e in ctx.rng.sample(ex, ctx.rng.randint(1, len(ex))):
+                e["interim"] = ctx.rng.choice([[100], [103], [102, 103], [100, 100]])
+            cases.append({"kind": "h1", "h1": ex})
         h2 = [(c, m) for c, m in C04.gen_cases(ctx) if not m["kind"].startswith("cap")]
         cases += [c for c, m in h2 if m.get("mode") == "h2c"][: (30 if ctx.tier == "quick" else 300)]
         cases += [c for c, m in h2 if m.get("mode") != "h2c"][: (70 if ctx.tier == "quick" else 800)]
